@@ -774,6 +774,7 @@ def run(ctx):
     # stage PadOpt (spec/PadOpt.tla): np.pad modes and options beyond the five index maps, for data AND validity
     from .. import padopt
     padopt.run_stage(ctx, df, "C07_PadFollowsMode")
+    core.df_stage(ctx, df)   # mixed histories (spec/DF.tla): the clauses that come from this property's text
     return core.finish(ctx, rule=RULE, extra={"embeddings": [e.name for e in embs]})
 
 
